@@ -1,2 +1,528 @@
+//! C01 / C03: the two-pass entry point of the real checker against the reference semantics (refsem) on every predicate graph of a
+//! small scope (all edge sets incl. cyclic, self loops, multi-edges; every numbering is covered because all edge sets are), with
+//! programs that make the verdict sensitive to the order / multiplicity / completeness of the parent inputs, to post-state reads,
+//! computed mutations, deletions and key ranges that straddle mutated and unmutated keys.
+use crate::refsem::{self, Kind, PreState, Verdict, Words};
 use crate::Ctx;
-pub fn run(_ctx: &Ctx) {}
+use essential_asm as asm;
+use essential_check::solution::{check_and_compute_solution_set_two_pass, CheckPredicateConfig, GetPredicate, GetProgram, PredicateError, PredicatesError};
+use essential_types::{
+    predicate::{Node, Predicate, Program},
+    solution::{Mutation, Solution, SolutionSet},
+    ContentAddress, PredicateAddress, Word,
+};
+use std::collections::BTreeMap;
+use std::sync::Arc;
+
+#[derive(Clone)]
+struct Preds(Arc<BTreeMap<ContentAddress, Predicate>>);
+impl GetPredicate for Preds {
+    fn get_predicate(&self, addr: &PredicateAddress) -> Arc<Predicate> {
+        Arc::new(self.0.get(&addr.predicate).cloned().unwrap_or(Predicate { nodes: vec![], edges: vec![] }))
+    }
+}
+#[derive(Clone)]
+struct Progs(Arc<BTreeMap<ContentAddress, Program>>);
+impl GetProgram for Progs {
+    fn get_program(&self, ca: &ContentAddress) -> Arc<Program> {
+        Arc::new(self.0.get(ca).cloned().unwrap_or_default())
+    }
+}
+
+fn push(w: Word) -> asm::Op {
+    asm::Stack::Push(w).into()
+}
+fn bytes(ops: Vec<asm::Op>) -> Program {
+    Program(asm::to_bytes(ops).collect())
+}
+
+/// Non-leaf node: appends the word 100+id to the stack and the word 200+id to the memory it inherited.
+fn producer(id: usize) -> Vec<asm::Op> {
+    vec![push(100 + id as Word), push(1), asm::Memory::Alloc.into(), push(200 + id as Word), asm::Stack::Swap.into(), asm::Memory::Store.into()]
+}
+
+/// Ops that reduce a stack holding exactly `expect` to [1] (and to something else / an error for any other stack).
+fn expect_stack(expect: &[Word]) -> Vec<asm::Op> {
+    let mut ops = Vec::new();
+    if expect.is_empty() {
+        ops.push(push(1));
+        return ops;
+    }
+    let n = expect.len();
+    ops.push(push(expect[n - 1]));
+    ops.push(asm::Pred::Eq.into());
+    for k in (0..n - 1).rev() {
+        ops.push(asm::Stack::Swap.into());
+        ops.push(push(expect[k]));
+        ops.push(asm::Pred::Eq.into());
+        ops.push(asm::Pred::And.into());
+    }
+    ops
+}
+
+/// Leaf constraint: satisfied exactly when the inherited stack is `es` and the inherited memory is `em`.
+fn constraint(es: &[Word], em: &[Word]) -> Vec<asm::Op> {
+    let mut ops = vec![push(0), push(em.len() as Word), asm::Memory::LoadRange.into()];
+    let mut all: Words = es.to_vec();
+    all.extend(em);
+    ops.extend(expect_stack(&all));
+    ops
+}
+
+/// Root data-output leaf: memory = one encoded mutation key -> value, stack = [2].
+fn data_output(key: &[Word], value: &[Word]) -> Vec<asm::Op> {
+    let mut words: Words = vec![1, key.len() as Word];
+    words.extend(key);
+    words.push(value.len() as Word);
+    words.extend(value);
+    let mut ops = vec![push(words.len() as Word), asm::Memory::Alloc.into(), asm::Stack::Pop.into()];
+    for w in &words {
+        ops.push(push(*w));
+    }
+    ops.push(push(words.len() as Word));
+    ops.push(push(0));
+    ops.push(asm::Memory::StoreRange.into());
+    ops.push(push(2));
+    ops
+}
+
+/// Post-state read of `n` keys from `key` of this contract (or of `ext`) into fresh memory at the end of the inherited memory `m0`,
+/// then the read block is loaded onto the stack.
+fn post_read(key: &[Word], n: usize, room: usize, m0: usize, ext: Option<&ContentAddress>) -> Vec<asm::Op> {
+    let mut ops = vec![push(room as Word), asm::Memory::Alloc.into(), asm::Stack::Pop.into()];
+    if let Some(c) = ext {
+        for w in essential_types::convert::word_4_from_u8_32(c.0) {
+            ops.push(push(w));
+        }
+    }
+    for w in key {
+        ops.push(push(*w));
+    }
+    ops.push(push(key.len() as Word));
+    ops.push(push(n as Word));
+    ops.push(push(m0 as Word));
+    ops.push(if ext.is_some() { asm::StateRead::PostKeyRangeExtern.into() } else { asm::StateRead::PostKeyRange.into() });
+    ops.push(push(m0 as Word));
+    ops.push(push(room as Word));
+    ops.push(asm::Memory::LoadRange.into());
+    ops
+}
+
+/// The documented memory layout of a range read: [addr, len] pairs followed by the values, padded with zeros to `room`.
+fn layout(values: &[Words], m0: usize, room: usize) -> Words {
+    let mut out = Vec::new();
+    let mut addr = m0 + 2 * values.len();
+    for v in values {
+        out.push(addr as Word);
+        out.push(v.len() as Word);
+        addr += v.len();
+    }
+    for v in values {
+        out.extend(v);
+    }
+    while out.len() < room {
+        out.push(0);
+    }
+    out
+}
+
+fn ca(b: u8) -> ContentAddress {
+    ContentAddress([b; 32])
+}
+
+struct Case {
+    pre: PreState,
+    set: SolutionSet,
+    preds: BTreeMap<ContentAddress, Predicate>,
+    progs: BTreeMap<ContentAddress, Program>,
+}
+
+fn classify(e: &PredicatesError<String>) -> Vec<(u16, Kind)> {
+    match e {
+        PredicatesError::Failed(errs) => {
+            let mut v: Vec<(u16, Kind)> = errs
+                .0
+                .iter()
+                .map(|(i, e)| {
+                    (
+                        *i,
+                        match e {
+                            PredicateError::InvalidNodeEdges(_) => Kind::InvalidGraph,
+                            PredicateError::ProgramErrors(_) => Kind::ProgramErrors,
+                            PredicateError::ConstraintsUnsatisfied(u) => {
+                                let mut u = u.0.clone();
+                                u.sort();
+                                Kind::Unsatisfied(u)
+                            }
+                            PredicateError::Mutations(_) => Kind::Mutations,
+                        },
+                    )
+                })
+                .collect();
+            v.sort();
+            v
+        }
+        _ => vec![(u16::MAX, Kind::Mutations)],
+    }
+}
+
+fn run_case(ctx: &Ctx, id: &str, clause: &str, case: &Case, describe: impl Fn() -> String) {
+    if !ctx.want(id) {
+        return;
+    }
+    let want = refsem::two_pass(&case.pre, &case.set, &case.preds, &case.progs);
+    for collect_all in [false, true] {
+        let cfg = Arc::new(CheckPredicateConfig { collect_all_failures: collect_all });
+        let r = std::panic::catch_unwind(std::panic::AssertUnwindSafe(|| {
+            check_and_compute_solution_set_two_pass(&case.pre, case.set.clone(), Preds(Arc::new(case.preds.clone())), Progs(Arc::new(case.progs.clone())), cfg)
+        }));
+        let got = match r {
+            Err(_) => {
+                ctx.fail(id, clause, format!("{} | collect_all_failures={collect_all}: the checker PANICKED; reference verdict {:?}", describe(), want));
+                return;
+            }
+            Ok(Ok((gas, set))) => Verdict::Ok(
+                gas,
+                set.solutions
+                    .iter()
+                    .map(|s| {
+                        let mut m: Vec<(Words, Words)> = s.state_mutations.iter().map(|m| (m.key.clone(), m.value.clone())).collect();
+                        m.sort();
+                        m
+                    })
+                    .collect(),
+            ),
+            Ok(Err(e)) => Verdict::Err(classify(&e)),
+        };
+        if got != want {
+            ctx.fail(id, clause, format!("{} | collect_all_failures={collect_all}: checker {:?} but reference {:?}", describe(), got, want));
+            return;
+        }
+    }
+    ctx.pass();
+}
+
+/// Encode children lists as nodes + edges. `empty_as_range`: a childless node gets an empty edge range instead of the MAX marker
+/// where the encoding allows it (its range end is the next non-leaf's start or the end of the list).
+fn encode(children: &[Vec<u16>], empty_as_range: bool) -> Predicate {
+    let mut nodes = Vec::new();
+    let mut edges = Vec::new();
+    for (i, c) in children.iter().enumerate() {
+        let start = if c.is_empty() && !empty_as_range { u16::MAX } else { edges.len() as u16 };
+        nodes.push(Node { edge_start: start, program_address: ca(i as u8 + 1) });
+        edges.extend(c);
+    }
+    Predicate { nodes, edges }
+}
+
+/// Expected stack / memory outputs of every node of an acyclic graph under the reference semantics when every non-leaf is a producer.
+fn expected_inputs(children: &[Vec<u16>]) -> Option<Vec<(Words, Words)>> {
+    let n = children.len();
+    let p = encode(children, false);
+    refsem::graph(&p)?;
+    let mut parents = vec![vec![]; n];
+    for (a, c) in children.iter().enumerate() {
+        for &b in c {
+            parents[b as usize].push(a);
+        }
+    }
+    for q in parents.iter_mut() {
+        q.sort();
+    }
+    let mut out: Vec<Option<(Words, Words)>> = vec![None; n];
+    let mut inp: Vec<Option<(Words, Words)>> = vec![None; n];
+    let mut left = n;
+    while left > 0 {
+        for i in 0..n {
+            if inp[i].is_some() || !parents[i].iter().all(|p| out[*p].is_some()) {
+                continue;
+            }
+            let mut s = Vec::new();
+            let mut m = Vec::new();
+            for p in &parents[i] {
+                let (ps, pm) = out[*p].clone().unwrap();
+                s.extend(ps);
+                m.extend(pm);
+            }
+            inp[i] = Some((s.clone(), m.clone()));
+            s.push(100 + i as Word);
+            m.push(200 + i as Word);
+            out[i] = Some((s, m));
+            left -= 1;
+        }
+    }
+    Some(inp.into_iter().map(|x| x.unwrap()).collect())
+}
+
+fn one_solution(pred_addr: ContentAddress, contract: ContentAddress, muts: Vec<Mutation>) -> Solution {
+    Solution { predicate_to_solve: PredicateAddress { contract, predicate: pred_addr }, predicate_data: vec![], state_mutations: muts }
+}
+
+pub fn run(ctx: &Ctx) {
+    graphs(ctx);
+    overlay(ctx);
+    cross_solution(ctx);
+}
+
+/// Every edge set over n nodes (n <= 3 quick, n <= 4 thorough; plus a deterministic sample of n = 4 in quick), producers and exact-input
+/// constraints, with variants: leaf marker encoding, a post-state reader at each node in turn, a failing node, an unsatisfied leaf.
+fn graphs(ctx: &Ctx) {
+    for n in 1..=4usize {
+        let pairs: Vec<(usize, usize)> = (0..n).flat_map(|a| (0..n).map(move |b| (a, b))).collect(); // incl. self loops
+        let total: u64 = 1u64 << pairs.len();
+        let mut mask: u64 = 0;
+        while mask < total {
+            let this = mask;
+            // quick tier: all graphs up to 3 nodes, every 7th edge set of 4 nodes (deterministic)
+            mask += if n == 4 && !ctx.thorough { 7 } else { 1 };
+            let mut children: Vec<Vec<u16>> = vec![vec![]; n];
+            for (bit, (a, b)) in pairs.iter().enumerate() {
+                if this >> bit & 1 == 1 {
+                    children[*a].push(*b as u16);
+                }
+            }
+            // multi-edge variant: duplicate the first edge of the lowest node that has one
+            let mut variants: Vec<(String, Vec<Vec<u16>>)> = vec![("plain".into(), children.clone())];
+            if let Some(a) = (0..n).find(|&a| !children[a].is_empty()) {
+                let mut c2 = children.clone();
+                let e = c2[a][0];
+                c2[a].insert(0, e);
+                variants.push(("multi".into(), c2));
+            }
+            for (vname, ch) in variants {
+                let exp = expected_inputs(&ch);
+                for marker in [false, true] {
+                    // programs: producers on non-leaves, exact-input constraints on leaves
+                    let mut progs = BTreeMap::new();
+                    for i in 0..n {
+                        let ops = if !ch[i].is_empty() {
+                            producer(i)
+                        } else {
+                            match &exp {
+                                Some(e) => constraint(&e[i].0, &e[i].1),
+                                None => vec![push(1)],
+                            }
+                        };
+                        progs.insert(ca(i as u8 + 1), bytes(ops));
+                    }
+                    let pred = encode(&ch, marker);
+                    let mut preds = BTreeMap::new();
+                    preds.insert(ca(0xA0), pred.clone());
+                    let set = SolutionSet { solutions: vec![one_solution(ca(0xA0), ca(0xC0), vec![])] };
+                    let base = Case { pre: PreState::default(), set, preds, progs };
+                    let desc = |what: &str| format!("{what}: nodes={n} children={:?} encoding(edge_start)={:?} edges={:?}", ch, pred.nodes.iter().map(|x| x.edge_start).collect::<Vec<_>>(), pred.edges);
+                    let id = format!("graph/{n}/{this}/{vname}/{}", marker as u8);
+                    run_case(ctx, &id, "verdict == reference: every node runs once after all its parents from the concatenation of their outputs in ascending parent order; cyclic / malformed graphs rejected",
+                        &base, || desc("producers + exact-input constraints"));
+                    if exp.is_none() || marker {
+                        continue;
+                    }
+                    let exp = exp.as_ref().unwrap();
+                    // variant: node r additionally reads post state (key [7] := [42,43] declared by the solution, pre-state [9])
+                    for r in 0..n {
+                        let mut c = Case { pre: base.pre.clone(), set: base.set.clone(), preds: base.preds.clone(), progs: base.progs.clone() };
+                        c.pre.0.entry(ca(0xC0)).or_default().insert(vec![7], vec![9]);
+                        c.set.solutions[0].state_mutations.push(Mutation { key: vec![7], value: vec![42, 43] });
+                        let m0 = exp[r].1.len();
+                        let block = layout(&[vec![42, 43]], m0, 4);
+                        let mut ops = post_read(&[7], 1, 4, m0, None);
+                        if ch[r].is_empty() {
+                            // leaf: the whole stack must be inputs ++ block, the memory inputs ++ block
+                            let mut es = exp[r].0.clone();
+                            es.extend(&block);
+                            let mut em = exp[r].1.clone();
+                            em.extend(&block);
+                            ops.extend(constraint(&es, &em));
+                        } else {
+                            // non-leaf: drop the loaded block again, then behave as a producer; descendants see the block in memory
+                            ops.push(push(4));
+                            ops.push(asm::Stack::Drop.into());
+                            ops.extend(producer(r));
+                        }
+                        c.progs.insert(ca(r as u8 + 1), bytes(ops));
+                        if !ch[r].is_empty() {
+                            // recompute the constraints of the leaves: memory of r's output now carries the block before its own word
+                            let mut outs: Vec<Option<(Words, Words)>> = vec![None; n];
+                            let mut parents = vec![vec![]; n];
+                            for (a, cc) in ch.iter().enumerate() {
+                                for &b in cc {
+                                    parents[b as usize].push(a);
+                                }
+                            }
+                            for q in parents.iter_mut() {
+                                q.sort();
+                            }
+                            let mut left = n;
+                            while left > 0 {
+                                for i in 0..n {
+                                    if outs[i].is_some() || !parents[i].iter().all(|p| outs[*p].is_some()) {
+                                        continue;
+                                    }
+                                    let mut s = Vec::new();
+                                    let mut m = Vec::new();
+                                    for p in &parents[i] {
+                                        let (ps, pm) = outs[*p].clone().unwrap();
+                                        s.extend(ps);
+                                        m.extend(pm);
+                                    }
+                                    if ch[i].is_empty() {
+                                        c.progs.insert(ca(i as u8 + 1), bytes(constraint(&s, &m)));
+                                    }
+                                    if i == r {
+                                        let b = layout(&[vec![42, 43]], m.len(), 4);
+                                        m.extend(b);
+                                    }
+                                    s.push(100 + i as Word);
+                                    m.push(200 + i as Word);
+                                    outs[i] = Some((s, m));
+                                    left -= 1;
+                                }
+                            }
+                        }
+                        let id = format!("graph/{n}/{this}/{vname}/postread{r}");
+                        run_case(ctx, &id, "a node that reads post state, and every node depending on it, runs in the second pass with all inputs; every other node runs once in the first pass",
+                            &c, || desc(&format!("node {r} reads post state key [7] (declared mutation [42,43], pre-state [9])")));
+                    }
+                    // variant: node f fails (division by zero) / leaf u is unsatisfied
+                    for f in 0..n {
+                        let mut c = Case { pre: base.pre.clone(), set: base.set.clone(), preds: base.preds.clone(), progs: base.progs.clone() };
+                        let bad = if ch[f].is_empty() && f % 2 == 0 { vec![push(0)] } else { vec![push(1), push(0), asm::Alu::Div.into()] };
+                        c.progs.insert(ca(f as u8 + 1), bytes(bad));
+                        let id = format!("graph/{n}/{this}/{vname}/bad{f}");
+                        run_case(ctx, &id, "a failing program or an unsatisfied leaf fails the check with the documented kind of error and the failing leaf indices",
+                            &c, || desc(&format!("node {f} fails / is unsatisfied")));
+                    }
+                }
+            }
+        }
+    }
+}
+
+/// Post-state ranges over a single-node predicate: every subset of 4 consecutive keys mutated (values or deletions), key carry.
+fn overlay(ctx: &Ctx) {
+    let starts: Vec<Words> = vec![vec![5], vec![0, Word::MAX - 1], vec![Word::MAX - 2], vec![-1, -1]];
+    for (si, start) in starts.iter().enumerate() {
+        // the 4 keys of the range (as far as the key space goes)
+        let mut keys = vec![start.clone()];
+        while keys.len() < 4 {
+            match refsem::next_key(keys.last().unwrap()) {
+                Some(k) => keys.push(k),
+                None => break,
+            }
+        }
+        for mask in 0u32..16 {
+            for del in [0u32, 0b0101, 0b1111] {
+                for pre_mask in [0b1111u32, 0b0110] {
+                    for extern_read in [false, true] {
+                        let id = format!("overlay/{si}/{mask}/{del}/{pre_mask}/{}", extern_read as u8);
+                        if !ctx.want(&id) {
+                            continue;
+                        }
+                        let target = if extern_read { ca(0xC1) } else { ca(0xC0) };
+                        let mut pre = PreState::default();
+                        let mut muts = Vec::new();
+                        let mut expect: Vec<Words> = Vec::new();
+                        for (i, k) in keys.iter().enumerate() {
+                            let pv: Words = if pre_mask >> i & 1 == 1 { vec![10 + i as Word] } else { vec![] };
+                            if !pv.is_empty() {
+                                pre.0.entry(target.clone()).or_default().insert(k.clone(), pv.clone());
+                            }
+                            if mask >> i & 1 == 1 {
+                                let v: Words = if del >> i & 1 == 1 { vec![] } else { vec![20 + i as Word, 30 + i as Word] };
+                                muts.push(Mutation { key: k.clone(), value: v.clone() });
+                                expect.push(v);
+                            } else {
+                                expect.push(pv);
+                            }
+                        }
+                        let room = 2 * 4 + 8;
+                        let mut ops = post_read(start, 4, room, 0, if extern_read { Some(&target) } else { None });
+                        let block = layout(&expect, 0, room);
+                        ops.extend(expect_stack(&block));
+                        let mut progs = BTreeMap::new();
+                        progs.insert(ca(1), bytes(ops));
+                        progs.insert(ca(2), bytes(vec![push(1)]));
+                        let mut preds = BTreeMap::new();
+                        preds.insert(ca(0xA0), Predicate { nodes: vec![Node { edge_start: u16::MAX, program_address: ca(1) }], edges: vec![] });
+                        preds.insert(ca(0xA1), Predicate { nodes: vec![Node { edge_start: u16::MAX, program_address: ca(2) }], edges: vec![] });
+                        // the mutations are proposed by the solution of the contract that is read (own contract, or the external one)
+                        let solutions = if extern_read {
+                            vec![one_solution(ca(0xA0), ca(0xC0), vec![]), one_solution(ca(0xA1), ca(0xC1), muts.clone())]
+                        } else {
+                            vec![one_solution(ca(0xA0), ca(0xC0), muts.clone())]
+                        };
+                        let case = Case { pre, set: SolutionSet { solutions }, preds, progs };
+                        if keys.len() < 4 {
+                            // the key space ends inside the range: fewer values are returned; the layout expectation covers the keys that exist
+                            let mut c2 = case;
+                            let mut ops = post_read(start, 4, room, 0, if extern_read { Some(&target) } else { None });
+                            ops.extend(expect_stack(&layout(&expect, 0, room)));
+                            c2.progs.insert(ca(1), bytes(ops));
+                            run_case(ctx, &id, "post-state range read == per-key overlay of the proposed values (empty = deletion) on the pre-state, key carry, end of key space",
+                                &c2, || format!("start key {:?} (key space ends after {} keys) mutated mask {mask:04b} deletions {del:04b} pre-state mask {pre_mask:04b} extern={extern_read}", start, keys.len()));
+                        } else {
+                            run_case(ctx, &id, "post-state range read == per-key overlay of the proposed values (empty = deletion) on the pre-state, key carry",
+                                &case, || format!("start key {:?} mutated mask {mask:04b} deletions {del:04b} pre-state mask {pre_mask:04b} extern={extern_read}", start));
+                        }
+                    }
+                }
+            }
+        }
+    }
+}
+
+/// Computed mutations: a data-output program of solution 0 (first pass) is seen by post-state reads of solution 0 and of solution 1
+/// (same contract / external contract); pushed words whose bytes look like post-state-read opcodes do not defer a program.
+fn cross_solution(ctx: &Ctx) {
+    for (ki, key) in [vec![3i64], vec![130], vec![0x183], vec![-126], vec![0, 0x8283]].into_iter().enumerate() {
+        for (vi, value) in [vec![77i64], vec![], vec![0x82, 0x83, -125]].into_iter().enumerate() {
+            for reader in 0..4 {
+                let id = format!("computed/{ki}/{vi}/{reader}");
+                if !ctx.want(&id) {
+                    continue;
+                }
+                let mut pre = PreState::default();
+                pre.0.entry(ca(0xC0)).or_default().insert(key.clone(), vec![5, 5, 5]);
+                let mut progs = BTreeMap::new();
+                // solution 0, predicate A0: node 0 = data output (root leaf), node 1 = reader (root leaf) when reader == 0
+                progs.insert(ca(1), bytes(data_output(&key, &value)));
+                let block = layout(&[value.clone()], 0, 6);
+                let mut rd = post_read(&key, 1, 6, 0, None);
+                rd.extend(expect_stack(&block));
+                progs.insert(ca(2), bytes(rd));
+                let mut rdx = post_read(&key, 1, 6, 0, Some(&ca(0xC0)));
+                rdx.extend(expect_stack(&block));
+                progs.insert(ca(3), bytes(rdx));
+                progs.insert(ca(4), bytes(vec![push(1)]));
+                let leaf = |a: u8| Node { edge_start: u16::MAX, program_address: ca(a) };
+                let mut preds = BTreeMap::new();
+                let solutions = match reader {
+                    0 => {
+                        preds.insert(ca(0xA0), Predicate { nodes: vec![leaf(1), leaf(2)], edges: vec![] });
+                        vec![one_solution(ca(0xA0), ca(0xC0), vec![])]
+                    }
+                    3 => {
+                        // two nodes share the same post-reading program
+                        preds.insert(ca(0xA0), Predicate { nodes: vec![leaf(2), leaf(1), leaf(2)], edges: vec![] });
+                        vec![one_solution(ca(0xA0), ca(0xC0), vec![])]
+                    }
+                    1 => {
+                        // another predicate of the same contract reads the slot
+                        preds.insert(ca(0xA0), Predicate { nodes: vec![leaf(1)], edges: vec![] });
+                        preds.insert(ca(0xA1), Predicate { nodes: vec![leaf(4), leaf(2)], edges: vec![] });
+                        vec![one_solution(ca(0xA1), ca(0xC0), vec![]), one_solution(ca(0xA0), ca(0xC0), vec![])]
+                    }
+                    _ => {
+                        // a solution of another contract reads it as external post state
+                        preds.insert(ca(0xA0), Predicate { nodes: vec![leaf(1)], edges: vec![] });
+                        preds.insert(ca(0xA1), Predicate { nodes: vec![leaf(3)], edges: vec![] });
+                        vec![one_solution(ca(0xA0), ca(0xC0), vec![]), one_solution(ca(0xA1), ca(0xC1), vec![])]
+                    }
+                };
+                let case = Case { pre, set: SolutionSet { solutions }, preds, progs };
+                run_case(ctx, &id, "a mutation computed by a data-output program in the first pass is observed by every post-state read (own / other predicate / external contract) and is part of the returned set",
+                    &case, || format!("computed mutation key {:?} value {:?}, reader variant {reader}", key, value));
+            }
+        }
+    }
+}
